@@ -726,6 +726,36 @@ func readsField(f *ssa.Function, fld *types.Var, depth int) bool {
 // clearsHolder: before `release`, f stores nil into recv.fld either unconditionally (dominating) or on
 // the true edge of `param == recv.fld` (either operand order), with that test dominating the release.
 func clearsHolder(f *ssa.Function, p *ssa.Parameter, fld *types.Var, release ssa.Instruction) bool {
+	// the release sits on an edge on which the parameter is known to differ from the holder: nothing to clear
+	for _, b := range f.Blocks {
+		ifi, ok := b.Instrs[len(b.Instrs)-1].(*ssa.If)
+		if !ok {
+			continue
+		}
+		bo, ok := ifi.Cond.(*ssa.BinOp)
+		if !ok || !(bo.Op == token.EQL || bo.Op == token.NEQ) {
+			continue
+		}
+		isFld := func(v ssa.Value) bool {
+			u, ok := v.(*ssa.UnOp)
+			if !ok || u.Op != token.MUL {
+				return false
+			}
+			a, ok := u.X.(*ssa.FieldAddr)
+			return ok && core.FieldOfAddr(a) == fld && a.X == ssa.Value(f.Params[0])
+		}
+		if !((bo.X == ssa.Value(p) && isFld(bo.Y)) || (bo.Y == ssa.Value(p) && isFld(bo.X))) {
+			continue
+		}
+		idx := 0 // edge on which they differ
+		if bo.Op == token.EQL {
+			idx = 1
+		}
+		s := b.Succs[idx]
+		if len(s.Preds) == 1 && s.Dominates(release.Block()) && b.Succs[0] != b.Succs[1] {
+			return true
+		}
+	}
 	for _, b := range f.Blocks {
 		for _, in := range b.Instrs {
 			st, ok := in.(*ssa.Store)
